@@ -52,11 +52,15 @@ func Load(repoDir, goos string, overlay map[string][]byte) (*Ctx, error) {
 	if goos != "" {
 		env = append(env, "GOOS="+goos, "CGO_ENABLED=0")
 	}
-	// Module packages are type-checked from source; dependencies come from
-	// export data (LoadSyntax) unless GTCHECK_ALLSYNTAX is set.
-	mode := packages.LoadSyntax | packages.NeedModule
-	if os.Getenv("GTCHECK_ALLSYNTAX") != "" {
-		mode = packages.LoadAllSyntax
+	// Everything (module packages and all dependencies) is parsed and
+	// type-checked from source: no export data, hence no compilation and no
+	// dependence on the state of the Go build cache — the cost is the same
+	// (~9 s) on a cold sandbox, on a scratch copy and after an edit to a
+	// low-level package. GTCHECK_EXPORTDATA=1 selects the export-data path
+	// (2 s when the build cache is warm, minutes when it is not).
+	mode := packages.LoadAllSyntax | packages.NeedModule
+	if os.Getenv("GTCHECK_EXPORTDATA") != "" {
+		mode = packages.LoadSyntax | packages.NeedModule
 	}
 	cfg := &packages.Config{
 		Mode:    mode,
@@ -111,7 +115,21 @@ func Load(repoDir, goos string, overlay map[string][]byte) (*Ctx, error) {
 	for _, sp := range prog.AllPackages() {
 		pp := sp.Pkg.Path()
 		if strings.HasPrefix(pp, Module) || BodyDeps[pp] {
-			sp.Build()
+			func() {
+				defer func() {
+					if r := recover(); r != nil {
+						var es []string
+						if p := c.All[pp]; p != nil {
+							for _, e := range p.Errors {
+								es = append(es, e.Error())
+							}
+							es = append(es, fmt.Sprintf("illTyped=%v goVersion=%v", p.IllTyped, p.Module != nil && p.Module.GoVersion != ""))
+						}
+						fmt.Fprintf(os.Stderr, "SSA-BUILD-PANIC %s: %v; package errors: %v\n", pp, r, es); panic(r)
+					}
+				}()
+				sp.Build()
+			}()
 		}
 	}
 	if os.Getenv("GTCHECK_TIMING") != "" {
